@@ -88,6 +88,10 @@ type thread struct {
 	holds    int // shim locks held
 	pseudo   func()
 	oneShot  bool
+	// rendezvous emulation for unbuffered channels (see chan.go)
+	recvOn  []uintptr
+	sendOn  []*Case
+	claimed bool
 }
 
 // Choice is one recorded decision of an execution.
@@ -132,6 +136,7 @@ type sched struct {
 	spentK   int
 	replayEr string
 	idleWait int
+	mailbox  map[uintptr][]any
 }
 
 var s sched
